@@ -172,7 +172,7 @@ def typestate(ctx):
     R.analysed["serialising_sites"] = serialising
 
     # who-may-call: the suit serializer writes prepare_suit_data(data); simplified serializer is not reachable from create
-    R.rule("C01-D1c create writes the refreshed bytes", 2, "to_suit_file writes prepare_suit_data(data); create uses the 'suit' serializer")
+    R.rule("C01-D1c create writes the refreshed bytes", 3, "to_suit_file writes prepare_suit_data(data); create uses the 'suit' serializer")
     io = repo.func("suit_generator.input_output", "InputOutputMixin.to_suit_file")
     oo = [o for o in ev.outcomes(io) if o.kind == "return"]
     w = [e for o in oo for e in all_effects(o.effects) if isinstance(e, App) and e.op == "eff:write"]
@@ -181,6 +181,19 @@ def typestate(ctx):
         and w[0].args[0] == App("open", (P("file_name"), Const("wb")))
     R.check("C01-D1c create writes the refreshed bytes", ok, "to_suit_file", mod=io.module, node=io.node, function=ctx.fq(io),
             expected="open(file_name, 'wb').write(self.prepare_suit_data(data))", found=repr(w)[:200])
+    # ... and prepare_suit_data returns the encoding of the very object it refreshed
+    ps = repo.func("suit_generator.input_output", "InputOutputMixin.prepare_suit_data")
+    pso = [o for o in ev.outcomes(ps) if o.kind == "return"]
+    okp = bool(pso)
+    for o in pso:
+        v = o.value
+        refreshed = [e.args[0].args[0] for e in all_effects(o.effects) if isinstance(e, App) and e.op == "eff:call" and isinstance(e.args[0], App)
+                     and e.args[0].op == "meth:update_digest"]
+        if not (isinstance(v, App) and v.op == "meth:to_cbor" and refreshed and v.args[0] == refreshed[-1] and _is_envelope_ctor(v.args[0], ps, repo)
+                and v.args[0].args[-1] == P("data")):
+            okp = False
+    R.check("C01-D1c create writes the refreshed bytes", okp, "prepare_suit_data", mod=ps.module, node=ps.node, function=ctx.fq(ps),
+            expected="return <the refreshed SuitEnvelopeTagged.from_obj(data)>.to_cbor()", found=f"{[repr(o.value)[:160] for o in pso]}")
     cm = repo.func("suit_generator.cmd_create", "main")
     couts = [o for o in ev.outcomes(cm) if o.kind == "return"]
     ccalls = [e.args[0] for o in couts for e in all_effects(o.effects) if isinstance(e, App) and e.op == "eff:call" and isinstance(e.args[0], App)
